@@ -55,7 +55,9 @@ def judge(res, default_archs, isa_of_arch):
             if float(r["cp"]) != fh(k["lat_cp"]):
                 bad("cp-cell-differs-from-yaml", "line %d: printed CP %s, YAML LatencyCP %r" % (r["num"], r["cp"], fh(k["lat_cp"])))
         elif fh(k["lat_cp"]) != 0.0:
+            # a blank CP cell stands for "no contribution to the critical path": the YAML must not report one for the line
             blank_cp_nonzero += 1
+            bad("cp-cell-blank-but-yaml-nonzero", "line %d: blank CP cell, YAML LatencyCP %r" % (r["num"], fh(k["lat_cp"])))
         if r["lcd"] != "":
             if float(r["lcd"]) != fh(k["lat_lcd"]):
                 bad("lcd-cell-differs-from-yaml", "line %d: printed LCD %s, YAML LatencyLCD %r" % (r["num"], r["lcd"], fh(k["lat_lcd"])))
@@ -89,6 +91,12 @@ def judge(res, default_archs, isa_of_arch):
     ysum = [fh(h) for h in y["summary"]["press"]]
     if tot != ysum:
         bad("yaml-summary-not-column-totals", "YAML Summary.PortPressure %s, column totals of its Kernel %s" % (ysum, tot))
+    # the YAML's own LatencyCP column adds up to its CriticalPath (lines off the critical path carry 0)
+    ycp = fh(y["summary"]["cp"])
+    cp_col = sum(fh(k["lat_cp"]) for k in y["kernel"])
+    if abs(cp_col - ycp) > 1e-9 * max(1.0, abs(ycp)):
+        bad("yaml-latencycp-do-not-sum-to-criticalpath", "YAML LatencyCP values %s add up to %r, Summary.CriticalPath %r" % (
+            [fh(k["lat_cp"]) for k in y["kernel"] if fh(k["lat_cp"]) != 0.0][:8], cp_col, ycp))
     lcd_lats = [float(e["lat"]) for e in t["lcd_list"]]
     if t["summary"] is not None:
         for j, c in enumerate(t["summary"]["cells"]):
